@@ -741,6 +741,9 @@ func (p *Prog) scaleExempt(ev scaleEvent, list []ast.Stmt, idx int) (string, boo
 			break
 		}
 	}
+	if p.isDigitProbe(ev.fd) {
+		return "digit probe: a function of one integer value returning one plain integer; no coefficient/exponent pair exists in it", true
+	}
 	if ev.fn == "Decimal.digits" && !ev.up {
 		return "digit extraction in Decimal.digits: remainders are the output digit pairs; trailing zero pairs adjust digs.exp by the digits stripped", true
 	}
@@ -1045,3 +1048,48 @@ func ruleZeroReset(c *Ctx) {
 }
 
 var _ = big.NewInt
+
+// isDigitProbe: a function of one plain integer / limb value whose only
+// result is one plain integer (leading digits, digit counts). No coefficient
+// leaves it, so there is no sig·10^exp to conserve and no dropped digit can
+// reach a result coefficient.
+func (p *Prog) isDigitProbe(fd *ast.FuncDecl) bool {
+	if fd == nil || fd.Type.Results == nil || len(fd.Type.Results.List) != 1 || len(fd.Type.Results.List[0].Names) > 1 {
+		return false
+	}
+	rt := p.typeOf(fd.Type.Results.List[0].Type)
+	if rt == nil || limbsOf(rt) != 1 {
+		return false
+	}
+	var ins []types.Object
+	if r := recvObj(p, fd); r != nil {
+		ins = append(ins, r)
+	}
+	ins = append(ins, paramObjs(p, fd)...)
+	if len(ins) != 1 || ins[0] == nil || limbsOf(ins[0].Type()) == 0 {
+		return false
+	}
+	return len(p.exponentLike(fd)) == 0
+}
+
+// callersOf lists the package functions that call name.
+func (p *Prog) callersOf(name string) []string {
+	var out []string
+	for _, fn := range p.sortedFuncNames() {
+		fd := p.Funcs[fn]
+		if fd.Body == nil {
+			continue
+		}
+		found := false
+		ast.Inspect(fd.Body, func(n ast.Node) bool {
+			if call, ok := n.(*ast.CallExpr); ok && p.calleeName(call) == name {
+				found = true
+			}
+			return !found
+		})
+		if found {
+			out = append(out, fn)
+		}
+	}
+	return out
+}
